@@ -46,8 +46,9 @@ DecodeSK(b, P) ==
 
 \* ---------------- signature framing (the body is judged by Codec!SpecDecompress at verification)
 EncodeSig(salt, body, P) == <<P.sighdr>> \o salt \o body
-DecodeSig(b, P) ==
+DecodeSigL(b, P, sl) ==
   IF Len(b) # P.siglen THEN [ok |-> FALSE, why |-> "length", salt |-> <<>>, body |-> <<>>]
   ELSE IF b[1] # P.sighdr THEN [ok |-> FALSE, why |-> "header", salt |-> <<>>, body |-> <<>>]
-  ELSE [ok |-> TRUE, why |-> "ok", salt |-> SubSeq(b, 2, 1 + SaltLen), body |-> SubSeq(b, 2 + SaltLen, Len(b))]
+  ELSE [ok |-> TRUE, why |-> "ok", salt |-> SubSeq(b, 2, 1 + sl), body |-> SubSeq(b, 2 + sl, Len(b))]
+DecodeSig(b, P) == DecodeSigL(b, P, SaltLen)
 =====================================================================
